@@ -26,7 +26,12 @@ func (e *Engine) varargs(v value) []value {
 
 // fmtArg renders one interface argument: either a concrete Go value or a
 // symbolic byte string.
-func (e *Engine) fmtArg(v value) (interface{}, *bytesV) {
+func (e *Engine) fmtArg(v value) (interface{}, *bytesV) { return e.fmtArgOpt(v, false) }
+
+// fmtArgOpt: with opaque set (error and log texts, whose content no check may
+// depend on) a composite value is rendered as a type placeholder instead of
+// ending the path as unsupported.
+func (e *Engine) fmtArgOpt(v value, opaque bool) (interface{}, *bytesV) {
 	i, ok := v.(iface)
 	if !ok {
 		return "<?>", nil
@@ -82,6 +87,9 @@ func (e *Engine) fmtArg(v value) (interface{}, *bytesV) {
 	}
 	switch i.v.(type) {
 	case structV, arrayV, *sliceV, *mapV:
+		if opaque {
+			return fmt.Sprintf("<%s>", types.TypeString(i.t, nil)), nil
+		}
 		// a composite value whose rendering the model does not know: never guess
 		e.end("unsupported", "M-fmt: formatting of a "+types.TypeString(i.t, nil)+" value")
 	}
@@ -141,7 +149,7 @@ func (e *Engine) sprintf(format string, args []value, opaque bool) *bytesV {
 			lit("%!" + verb[len(verb)-1:] + "(MISSING)")
 			continue
 		}
-		g, sym := e.fmtArg(args[ai])
+		g, sym := e.fmtArgOpt(args[ai], opaque)
 		ai++
 		if sym != nil && opaque {
 			// error and log texts are opaque: a symbolic argument is not rendered
